@@ -19,7 +19,8 @@ class CustomError(Exception):
 
 
 EXC = {'ValueError': ValueError, 'KeyError': KeyError, 'RuntimeError': RuntimeError, 'CustomError': CustomError,
-       'IOError': IOError, 'ZeroDivisionError': ZeroDivisionError}
+       'IOError': IOError, 'ZeroDivisionError': ZeroDivisionError, 'AssertionError': AssertionError,
+       'StopIteration': StopIteration, 'NotImplementedError': NotImplementedError}
 
 INTERRUPTS = {'KeyboardInterrupt': KeyboardInterrupt, 'SystemExit': SystemExit, 'GeneratorExit': GeneratorExit}
 
